@@ -14,6 +14,8 @@
 (*            r.excl       exclude files (tables), r.gap = min_gap_size, r.skip = skip_noncanonical        *)
 (*            r.baits      bait table, r.split, r.an/r.ad = average target size (rational)                 *)
 (*            r.avg, r.min antitarget average / minimum size (min 0 = not given), r.hapx = male reference  *)
+(*            r.chain      "files": each table reaches the next step through a BED file as with the CLI,          *)
+(*                         "memory": as an object, as cnvlib.batch does (r.order: Access / Target order; no effect) *)
 (*            r.pad, r.telo the 500-base margin and the 150000-base telomere guess (constants of the       *)
 (*                         package; an abstract Pad / Telo in the design check whose grid unit is 500/Pad  *)
 (*                         real bases)                                                                     *)
@@ -283,9 +285,28 @@ AccessA(r) ==
     LET regs == RunsTable(r)
         kept == IF r.skip THEN SelectSeq(regs, LAMBDA row : CN!CanonicalName(r.names[C(row)])) ELSE regs
     IN AC!JoinRegions(AC!SubtractFiles(kept, r.excl, 1), r.gap)
-TargetA(r) == BN!ATarget(TargetRec(r))
-AntiErrA(r) == BN!AAntiErr(AntiRecA(r))
-AntiA(r) == BN!AAnti(AntiRecA(r))
+(* do_target: drop zero-width rows, subdivide(avg, 0) if asked.  Bins.ATarget with one refinement: the package's default  *)
+(* average 200 / 0.75 is an IEEE double just above 800/3, so a merged bait whose length / (800/3) is exactly k + 1/2      *)
+(* (lengths 400, 1200, 2000, ...) gets k bins, where exact arithmetic with round-half-even may give k + 1                 *)
+NBinsA(span, an, ad) ==
+    LET q == (span * ad) \div an
+        rem == (span * ad) % an
+        n0 == IF an = 800 /\ ad = 3 /\ 2 * rem = an THEN q ELSE IV!RoundHalfEven(span * ad, an)
+    IN IF n0 = 0 THEN 1 ELSE n0
+SplitRowA(row, an, ad) ==
+    LET span == E(row) - S(row)
+        n == NBinsA(span, an, ad)
+    IN IF n = 1 THEN <<row>>
+       ELSE [m \in 1..n |-> <<C(row), S(row) + BN!MulDiv(m - 1, span, n),
+                               IF m = n THEN E(row) ELSE S(row) + BN!MulDiv(m, span, n), G(row)>>]
+TargetA(r) == LET ne == NonEmptyRows(r.baits) IN
+              IF r.split THEN LET mt == IV!MergeSweep(ne, 0) IN FlattenSeq([n \in Idx(mt) |-> SplitRowA(mt[n], r.an, r.ad)])
+              ELSE ne
+(* cnvkit.py antitarget -g FILE reads the access table back with tabio.read_auto, which sorts it; an API caller (batch)  *)
+(* hands the do_access result over as it is (sequences in FASTA order)                                                  *)
+AntiRecIn(r) == [AntiRecA(r) EXCEPT !.b = IF r.chain = "files" THEN IV!SortRows(r.access) ELSE r.access]
+AntiErrA(r) == BN!AAntiErr(AntiRecIn(r))
+AntiA(r) == BN!AAnti(AntiRecIn(r))
 RefRowsA(r) == RF!RfSortRows(r.targets \o r.antitargets)
 Drift(r) ==
     \/ AccDone(r) /\ IV!SortRows(r.access) # IV!SortRows(AccessA(r))
